@@ -191,9 +191,12 @@ Section ApiProofs.
           inversion Hall as [| ? ? [Hh | Hd] _]; simpl in *; first [assumption | discriminate]. }
       destruct Hstep as [Hstep | Hd].
       + assert (Hv1 : at_base ss m v1) by (eapply execute_at_base_gen; eauto).
-        destruct r; try (destruct (run_calls pol v1 m cs) as [rs1 v2] eqn:Hrc; inversion H; subst;
-                          eapply IH; eauto;
-                          destruct Hgood as [Hre | Hall]; [left; auto | right; inversion Hall; auto]).
+        destruct r;
+          try (destruct (run_calls pol v1 m cs) as [rs1 v2] eqn:Hrc; inversion H; subst rs v2;
+               apply (IH v1 rs1 v' Hp);
+               [ destruct Hgood as [Hre | Hall];
+                 [left; exact Hre | right; inversion Hall; assumption]
+               | exact Hv1 | exact Hrc ]).
         inversion H; subst; auto.
       + subst r. inversion H; subst.
         unfold Api.execute in He. destruct (initialized v) eqn:Hi.
@@ -221,7 +224,8 @@ Section ApiProofs.
     stack_size v' = ss /\ sp v' = (if initialized v' then base gdepth m else -1).
   Proof.
     intros pol ss m cs rs v' Hp H Hall.
-    eapply run_calls_at_base_gen; eauto. apply vm_new_at_base.
+    exact (run_calls_at_base_gen pol ss m cs (vm_new gnone ss) rs v' Hp (or_intror Hall)
+             (vm_new_at_base ss m) H).
   Qed.
 
   (* under the repaired policy an initialised reachable VM IS the fresh VM primed with its globals *)
@@ -232,7 +236,9 @@ Section ApiProofs.
     v = primed gdepth ss m (globals v).
   Proof.
     intros pol ss m cs rs v Hp Hr H Hi.
-    assert (Hb : at_base ss m v) by (eapply run_calls_at_base_gen; eauto; apply vm_new_at_base).
+    assert (Hb : at_base ss m v)
+      by (apply (run_calls_at_base_gen pol ss m cs (vm_new gnone ss) rs v Hp (or_introl Hr)
+                   (vm_new_at_base ss m) H)).
     destruct Hb as [Hss Hsp]. rewrite Hi in Hsp.
     destruct v as [i s g z]; simpl in *. unfold primed. congruence.
   Qed.
@@ -311,7 +317,7 @@ Section ApiProofs.
         destruct Hb as [_ [[-> _] | [Hr2 [_ [Hi2' [_ [Hg2 _]]]]]]]; auto.
         right; right. split; [congruence|]. split; congruence.
       + inversion H1; inversion H2; subst. right; right. split; auto.
-        destruct (restore_on_error pol); split; simpl; auto.
+        destruct (restore_on_error pol); split; simpl; auto; congruence.
   Qed.
 
   (* **execute_repeatable**: two VMs that agree on (initialized, globals) — e.g. two new VMs, or
@@ -365,10 +371,10 @@ Section ApiProofs.
     fst (api_step pol q o) (op_handle Module Entry Args o).
   Proof.
     intros pol p q o H. destruct o as [h ss | h m e a | h]; simpl in *; rewrite <- H.
-    - destruct (p h); simpl; auto. unfold pool_set. rewrite Nat.eqb_refl; auto.
-    - destruct (p h); simpl; auto. destruct (execute pol v m e a) as [[r pk] v']. simpl.
-      unfold pool_set. rewrite Nat.eqb_refl; auto.
-    - destruct (p h); simpl; auto. unfold pool_set. rewrite Nat.eqb_refl; auto.
+    - destruct (p h) eqn:Hph; simpl; unfold pool_set; rewrite ?Nat.eqb_refl; split; congruence.
+    - destruct (p h) eqn:Hph; simpl; [destruct (execute pol v m e a) as [[r pk] v']; simpl|];
+        unfold pool_set; rewrite ?Nat.eqb_refl; split; congruence.
+    - destruct (p h) eqn:Hph; simpl; unfold pool_set; rewrite ?Nat.eqb_refl; split; congruence.
   Qed.
 
   (* the product machine's projections commute: operations on different VMs can be swapped without
